@@ -398,7 +398,7 @@ func daoOracle(op daoOp, res int, pre, post *daoSnap) string {
 }
 
 func daoRunCase(id string, in daoInput) Case {
-	e := newEnv()
+	e := forkEnv()
 	pre := daoSnapshot(e)
 	steps := []string{}
 	obsAll := []daoStepObs{}
